@@ -4,6 +4,7 @@ import (
 	"github.com/bbockelm/cedar/security"
 	"context"
 	"fmt"
+	"os"
 	"strings"
 
 	"github.com/bbockelm/cedar/ccb"
@@ -210,5 +211,82 @@ func s5Case(bound, maxExecs int) *vlib.Result {
 	res.Nontrivial = res.Evals
 	res.States = append(res.States, "S5")
 	res.Sample = map[string]any{"scenario": "S5 session-id counter", "threads": 3, "executions": st.Execs, "bound": bound}
+	return res
+}
+
+// ---- S6: a process's FIRST uses of the package-global session cache, made concurrently.
+// The cache is built lazily and, on first use, filled with the sessions the parent daemon
+// handed down in the environment; every caller - however the first calls interleave - must
+// get the one cache with the inherited sessions in it. ----
+
+func s6Case(threads, bound, maxExecs int) *vlib.Result {
+	res := &vlib.Result{}
+	const parent = "<10.7.7.7:9618>"
+	key := strings.Repeat("0123456789abcdef", 4)
+	inherit := fmt.Sprintf("SessionKey:inh-a#[CryptoMethods=\"AESGCM\";Encryption=\"YES\";ValidCommands=\"60008\";]#%s FamilySessionKey:inh-b#[CryptoMethods=\"AESGCM\";Encryption=\"YES\";]#%s", key, key)
+	type obs struct {
+		cache  *security.SessionCache
+		foundA bool
+		foundB bool
+	}
+	var got []obs
+	mk := func() []func() {
+		security.VerifResetGlobalSessionState()
+		_ = os.Setenv("CONDOR_INHERIT", "4242 "+parent+" 0")
+		_ = os.Setenv("CONDOR_PRIVATE_INHERIT", inherit)
+		got = make([]obs, threads)
+		var bodies []func()
+		for t := 0; t < threads; t++ {
+			t := t
+			bodies = append(bodies, func() {
+				c := security.GetSessionCache()
+				_, a := c.LookupNonExpired("inh-a")
+				_, b := c.LookupNonExpired("inh-b")
+				got[t] = obs{c, a, b}
+			})
+		}
+		return bodies
+	}
+	seen := map[string]bool{}
+	st := vsched.Explore(bound, 20000, maxExecs, mk, func(x *vsched.Sched) {
+		res.Evals++
+		res.Transitions += len(x.Points)
+		for _, r := range x.Races {
+			k := raceKey(r)
+			if !seen[k] {
+				seen[k] = true
+				res.Violate("C17/S6/data-race/"+k, "first use of the global session cache: unsynchronised accesses %s (schedule %v)", r, choices(x))
+			}
+		}
+		if x.Deadlock || x.Diverged || x.StepLimit {
+			if !seen["div"] {
+				seen["div"] = true
+				res.Violate("C17/S6/harness-divergence", "deadlock=%v diverged=%v steplimit=%v (schedule %v)", x.Deadlock, x.Diverged, x.StepLimit, choices(x))
+			}
+			return
+		}
+		for t := range got {
+			if got[t].cache == nil || got[t].cache != got[0].cache {
+				if !seen["two"] {
+					seen["two"] = true
+					res.Violate("C17/S6/two-global-caches", "concurrent first callers of GetSessionCache got different caches (schedule %v)", choices(x))
+				}
+			}
+			if (!got[t].foundA || !got[t].foundB) && !seen["inh"] {
+				seen["inh"] = true
+				res.Violate("C17/S6/inherited-session-invisible", "thread %d obtained the global session cache before the inherited sessions were in it (inh-a found=%v, inh-b found=%v; schedule %v)", t, got[t].foundA, got[t].foundB, choices(x))
+			}
+		}
+		res.Outcome("first-use-ok")
+	})
+	if st.Capped {
+		res.Outcome("capped")
+	}
+	_ = os.Unsetenv("CONDOR_INHERIT")
+	_ = os.Unsetenv("CONDOR_PRIVATE_INHERIT")
+	security.VerifResetGlobalSessionState()
+	res.Nontrivial = res.Evals
+	res.States = append(res.States, fmt.Sprintf("S6/threads=%d", threads))
+	res.Sample = map[string]any{"scenario": "S6 first concurrent uses of the global session cache", "threads": threads, "executions": st.Execs, "bound": bound, "capped": st.Capped}
 	return res
 }
